@@ -107,7 +107,7 @@ func drawDirty(r *prng.Rand) *Dirty {
 }
 
 var readerKinds = []string{"plain", "bytereader", "errorreader", "bufio", "fat", "limited", "limited-tight", "bytesreader", "bytesbuffer"}
-var writerKinds = []string{"plain", "errorwriter", "fat"}
+var writerKinds = []string{"plain", "errorwriter", "fat", "seeker", "append-seeker"}
 
 // drawSchedule draws a chunk schedule for data (spans may be nil).
 func drawSchedule(r *prng.Rand, n int, spans []refcodec.Span) *simnet.Schedule {
